@@ -28,7 +28,7 @@ CONSTANTS Workers,      \* e.g. {"w0", "w1"}
           GStrictBefore, GEstBlocks, GValEst, GValVersion, GValStorage, GTsBeforeScan, GRewindNew,
           GRewindConflict, GMarkEstimate, GRemoveStale, GFinStatus, GFinCursor, GFinTs, GFinCarry,
           GCommitOrder, GHeadOnly, GNotifyFin, GNotifyCom, GNotifyBatch, GNotifyCancel, GKeyLive,
-          GCommitRelease, GFallbackStart,
+          GCommitRelease, GFallbackStart, GResetMasks, GCreatedWins,
           GHeadAtStart  \* the commit-head test of a failed attempt uses the boundary sampled when the
                         \* attempt started (the "fix:" for finding F2); FALSE = sampled when the error is handled
 
@@ -40,7 +40,7 @@ vars == <<block, status, inc, hint, txLock, result, mv, onboard, dep, affects, e
           valIdx, finIdx, comIdx, executed, clock, lowerTs, unconfTs,
           abort, abortReason, abortTx, slot, cstate, outcomes, returned, pc, loc>>
 
-MaxN == 4
+MaxN == IF TraceMode THEN 12 ELSE 4
 Tx == 0..(MaxN - 1)
 N == block.n
 Locs == block.locs                 \* set of location names
@@ -59,6 +59,11 @@ MaxSet(S) == CHOOSE m \in S : \A x \in S : x <= m
 (* ------------------------------------------------------------------------------------------ *)
 Regs == 1..2
 NoW == -1
+(* storage-reset marker of a slot location ("none": the location is not a slot of a resettable account);
+   blocks without deletions / creations simply have no resetOf field                             *)
+ResetOf(l) == IF "resetOf" \in DOMAIN block THEN block.resetOf[l] ELSE "none"
+IsResetLoc(l) == "resetOf" \in DOMAIN block /\ \E x \in DOMAIN block.resetOf : block.resetOf[x] = l
+Zero == IF TraceMode THEN "0" ELSE 0
 RegVal(regs, r) == IF r = 0 THEN 0 ELSE regs[r]
 
 RECURSIVE RunLocal(_, _, _, _)
@@ -68,7 +73,11 @@ RunLocal(prog, ip, regs, wbuf) ==
     CASE ins[1] = "r" ->
            IF wbuf[ins[2]] # NoW
            THEN RunLocal(prog, ip + 1, [regs EXCEPT ![ins[3]] = wbuf[ins[2]]], wbuf)
-           ELSE [ip |-> ip, regs |-> regs, wbuf |-> wbuf, st |-> "read"]
+           ELSE IF ResetOf(ins[2]) # "none" /\ wbuf[ResetOf(ins[2])] # NoW
+                THEN RunLocal(prog, ip + 1, [regs EXCEPT ![ins[3]] = 0], wbuf)     \* own deletion / creation masks the slot
+                ELSE [ip |-> ip, regs |-> regs, wbuf |-> wbuf, st |-> "read"]
+      [] ins[1] = "reset" ->   \* delete or (re-)create the account: marker written, earlier own slot writes dropped
+           RunLocal(prog, ip + 1, regs, [l \in DOMAIN wbuf |-> IF l = ins[2] THEN 1 ELSE IF ResetOf(l) = ins[2] THEN NoW ELSE wbuf[l]])
       [] ins[1] = "w" -> RunLocal(prog, ip + 1, regs, [wbuf EXCEPT ![ins[2]] = RegVal(regs, ins[3]) + ins[4]])
       [] ins[1] = "jeq" -> RunLocal(prog, IF regs[ins[2]] = ins[3] THEN ins[4] ELSE ip + 1, regs, wbuf)
       [] OTHER -> [ip |-> ip, regs |-> regs, wbuf |-> wbuf, st |-> ins[2]]
@@ -84,7 +93,8 @@ RefFrom(prog, c, st) ==
        RefFrom(prog, RunLocal(prog, c.ip + 1, [c.regs EXCEPT ![ins[3]] = st[ins[2]]], c.wbuf), st)
   ELSE c
 RefExec(prog, st) == RefFrom(prog, RunLocal(prog, 1, ZeroRegs, EmptyW), st)
-Apply(st, wbuf) == [l \in Locs |-> IF wbuf[l] # NoW THEN wbuf[l] ELSE st[l]]
+Apply(st, wbuf) == [l \in Locs |-> IF wbuf[l] # NoW THEN wbuf[l]
+                                    ELSE IF ResetOf(l) # "none" /\ wbuf[ResetOf(l)] # NoW THEN 0 ELSE st[l]]
 
 (* reference run: state before tx k, outcome kind of tx k, first fatal index (or n) *)
 RECURSIVE RefState(_)
@@ -359,17 +369,33 @@ E_Begin(w) ==
                  cstate, outcomes, returned>>
 
 (* one read through IncarnationDb: latest preceding version in mv, else the committed state *)
+(* storage: newest of (reset marker, slot version); a marker newer than the slot masks it and the
+   backing store; storage written by the resetting transaction itself wins (>=)                  *)
 ReadOf(w, l) ==
-  LET i == loc[w].tx  v == Resolve(l, i) IN
-  IF v.k = "mv" THEN [ver |-> v, val |-> mv[l][v.tx].val, est |-> mv[l][v.tx].est]
-  ELSE [ver |-> StVer, val |-> cstate[l], est |-> FALSE]
+  LET i == loc[w].tx  v == Resolve(l, i)
+      rv == IF ResetOf(l) = "none" \/ ~GResetMasks THEN NoVer ELSE Resolve(ResetOf(l), i)
+      slotWins == v.k = "mv" /\ (rv.k # "mv" \/ (IF GCreatedWins THEN v.tx >= rv.tx ELSE v.tx > rv.tx))
+  IN IF slotWins THEN [ver |-> v, val |-> mv[l][v.tx].val, est |-> mv[l][v.tx].est]
+     ELSE IF rv.k = "mv" THEN [ver |-> (IF v.k = "mv" THEN v ELSE StVer), val |-> Zero,
+                               est |-> (v.k = "mv" /\ mv[l][v.tx].est)]
+     ELSE [ver |-> StVer, val |-> cstate[l], est |-> FALSE]
 
 R_Read(w, l) ==
   /\ pc[w] \in {"e_read", "e_run"}
   /\ TraceMode \/ (pc[w] = "e_read" /\ l = Prog(loc[w].tx)[loc[w].ip][2])
   /\ LET i == loc[w].tx  r == ReadOf(w, l)
-         base == [loc[w] EXCEPT !.rs = [@ EXCEPT ![l] = r.ver], !.rv = [@ EXCEPT ![l] = r.val],
-                               !.blockers = IF r.est /\ GEstBlocks THEN @ \cup {r.ver.tx} ELSE @]
+         rl == ResetOf(l)
+         \* both the slot and the reset marker enter the read set (incarnation_db.rs:316-356); in trace
+         \* mode the marker lookup is its own record
+         withReset == ~TraceMode /\ rl # "none"
+         rver == IF withReset THEN Resolve(rl, i) ELSE NoVer
+         rest == withReset /\ rver.k = "mv" /\ mv[rl][rver.tx].est
+         base == [loc[w] EXCEPT !.rs = [x \in Locs |-> IF x = l THEN r.ver
+                                                       ELSE IF withReset /\ x = rl THEN (IF rver.k = "mv" THEN rver ELSE StVer)
+                                                       ELSE @[x]],
+                               !.rv = [@ EXCEPT ![l] = r.val],
+                               !.blockers = (IF r.est /\ GEstBlocks THEN @ \cup {r.ver.tx} ELSE @)
+                                            \cup (IF rest /\ GEstBlocks THEN {rver.tx} ELSE {})]
      IN IF TraceMode
         THEN loc' = [loc EXCEPT ![w] = base] /\ UNCHANGED pc
         ELSE LET ins == Prog(i)[loc[w].ip]
@@ -381,6 +407,16 @@ R_Read(w, l) ==
   /\ UNCHANGED <<block, status, inc, hint, txLock, result, mv, onboard, dep, affects, execIdx, valIdx,
                  finIdx, comIdx, executed, clock, lowerTs, unconfTs, abort, abortReason, abortTx, slot,
                  cstate, outcomes, returned>>
+
+(* The beneficiary account is resolved through its reward history (Beneficiary.tla), not through mv.
+   The scheduler specification only needs one consequence: a read blocked by an unresolved history
+   entry of transaction j makes the attempt an estimate blocked on j (trace mode only).          *)
+R_BenBlock(w, j) ==
+  /\ TraceMode /\ pc[w] = "e_run"
+  /\ loc' = [loc EXCEPT ![w].blockers = @ \cup {j}]
+  /\ UNCHANGED <<block, status, inc, hint, txLock, result, mv, onboard, dep, affects, execIdx, valIdx,
+                 finIdx, comIdx, executed, clock, lowerTs, unconfTs, abort, abortReason, abortTx, slot,
+                 cstate, outcomes, returned, pc>>
 
 (* publication of one written location (finish_incarnation); v is the value (from wbuf or record) *)
 P_Pub(w, l, v) ==
@@ -785,7 +821,8 @@ C_Nonce(ok) ==
 
 C_Apply ==   \* OrderedCommitter::commit: state applied, outcome pushed (the commit event)
   /\ pc["com"] = "c_apply"
-  /\ cstate' = [l \in Locs |-> IF l \in result[C].ws THEN result[C].wv[l] ELSE cstate[l]]
+  /\ cstate' = [l \in Locs |-> IF l \in result[C].ws THEN result[C].wv[l]
+                              ELSE IF ResetOf(l) # "none" /\ ResetOf(l) \in result[C].ws THEN Zero ELSE cstate[l]]
   /\ outcomes' = Append(outcomes, [tx |-> C, kind |-> "executed",
                                    wv |-> [l \in Locs |-> IF l \in result[C].ws THEN result[C].wv[l] ELSE NoW]])
   /\ Goto("com", "c_publish")
@@ -862,7 +899,7 @@ CommittedIsPrefix == Len(outcomes) <= FatalAt /\ comIdx <= Len(outcomes)
 CommittedReadsFresh ==
   \A k \in 0..(N - 1) :
     (status[k] = "Finality" /\ result[k].has /\ result[k].kind = "ok") =>
-       \A l \in Locs : result[k].rs[l].k # "none" => result[k].rv[l] = RefState(k)[l]
+       \A l \in Locs : (result[k].rs[l].k # "none" /\ ~IsResetLoc(l)) => result[k].rv[l] = RefState(k)[l]
 
 (* C01 / C03 / C04: the final observable *)
 FinalOk ==
